@@ -17,7 +17,7 @@ are written only in insert_inner (add) and update_components_and_caches_on_remov
 max_gas() / metered_bytes_size() of the transaction on both sides; (4) in insert_inner the
 collided / evicted subtrees are removed before the new transaction is stored and registered;
 (5) GraphStorage: cache_tx_infos and clear_cache mirror each other per Output variant and every
-graph.remove_node result is passed to clear_cache.
+graph.remove_node result is passed to clear_cache. (6) in every pool method that both changes the contents and publishes statistics, each successful path from a change (ok edge of a removal / store) to the return passes update_stats().
 """
 NOT_DECIDED = """That the maps are sufficient to express every conflict kind; equality of the
 stats as numbers; interleavings of pool operations."""
